@@ -60,6 +60,10 @@ def extract(repo):
     for lean_name, sig in (("onQueryChange", "fn on_query_change(&mut self"), ("rotateMode", "fn act_rotate_mode(&mut self"),
                            ("onCmdQueryChange", "fn on_cmd_query_change(&mut self")):
         body = strip_verif(body_of(src, sig))
+        # a call of a method of the model that is not one of the known steps may hide any of them: not understood
+        unknown = sorted(set(re.findall(r"self\.(\w+)\(", body)) - {"restart_matcher"})
+        if unknown:
+            raise Exception("heartbeat: %s calls self.%s(), whose effect on matcher / reader / pool this translator does not know" % (lean_name, unknown[0]))
         found = []
         for name, pat in STEPS:
             for m in re.finditer(pat, body):
